@@ -39,7 +39,7 @@ End SLit.
 (** string.py:28 *)
 Definition append_f (left arg : fval) : res fval :=
   do v <- to_liquid_string left;;
-  do a <- match arg with FStr s => Ok s | _ => py_str arg end;;
+  do a <- to_liquid_string arg;;          (* after the fix: Liquid's coercion, not str() *)
   Ok (FStr (v ++ a)).
 
 (** string.py:96 *)
@@ -183,7 +183,7 @@ Definition truncate_chars_unfixed (val : str) (num : Z) (end_ : str) : str :=
 Definition truncate_f (left : fval) (num end_ : option fval) : res fval :=
   do v <- to_liquid_string left;;
   do n <- match num with None => Ok 50%Z | Some x => to_int_arg x end;;
-  do e <- match end_ with None => Ok SLit.ellipsis | Some x => py_str x end;;
+  do e <- match end_ with None => Ok SLit.ellipsis | Some x => to_liquid_string x end;;
   Ok (FStr (truncate_chars v n e)).
 
 (** [s.split()]: maximal runs of non-whitespace. *)
@@ -210,7 +210,7 @@ Definition truncatewords_str (v : str) (num : Z) (e : str) : str :=
 Definition truncatewords_f (left : fval) (num end_ : option fval) : res fval :=
   do v <- to_liquid_string left;;
   do n <- match num with None => Ok 15%Z | Some x => to_int_arg x end;;
-  do e <- match end_ with None => Ok SLit.ellipsis | Some x => py_str x end;;
+  do e <- match end_ with None => Ok SLit.ellipsis | Some x => to_liquid_string x end;;
   Ok (FStr (truncatewords_str v n e)).
 
 (** * newlines *)
